@@ -49,6 +49,7 @@ def configs(tier, seed):
     if not q:
         out.append(dict(name="blocks nS=2 nT=2 D=1 N=3 (sampled structures)", h="blocks", nS=2, nT=2, D=1, N=3, sample=40))
     out.append(dict(name="sweep order", h="sweep", nS=2, nT=2, D=1))
+    out.append(dict(name="start of a step from an arbitrary state with data", h="sweep", nS=2, nT=2, D=1, N=1))
     for d in ((3,) if q else (3, 4)):
         out.append(dict(name="embedding-scale block D=%d" % d, h="taublock", nS=2, nT=1, D=d, N=0))
     for d in ((1, 2) if q else (1, 2, 3)):
@@ -443,6 +444,8 @@ def h_taublock(ctx, cfg):
 
 def h_sweep(ctx, cfg):
     sc = ctx.mod("batchie.models.sparse_combo")
+    if cfg.get("N"):
+        return h_step_entry(ctx, cfg)
     with ctx.global_rng() as G:
         m, ys, cl, d1, d2, P0, H0 = _mk_state(ctx, sc, dict(cfg, N=0))
         order = []
@@ -458,6 +461,35 @@ def h_sweep(ctx, cfg):
     ctx.prove(order == names, "one step visits every block exactly once in the documented order", key="sweep order")
     ctx.prove(m.num_mcmc_steps == before + 1, "step counter advances by one")
     return order
+
+
+def h_step_entry(ctx, cfg):
+    """a whole mcmc_step from an arbitrary state WITH data: when the first block starts, the running fitted values are those
+    implied by the parameters (whatever the step does before its first block - this closes the induction of which the
+    per-block configurations prove the step: every block keeps them equal)"""
+    sc = ctx.mod("batchie.models.sparse_combo")
+    D = cfg["D"]
+    with ctx.global_rng() as G:
+        m, ys, cl, d1, d2, P0, H0 = _mk_state(ctx, sc, cfg)
+        # the state reached so far may carry fitted values of an earlier parameter vector or not: either way
+        m.Mu = ctx.np.array(_mu(_params(m), cl, d1, d2, D), dtype=float)
+        seen = []
+        first = m._alpha_step
+
+        def entry(*a, **k):
+            if not seen:
+                seen.append((m.Mu.tolist(), _params(m)))
+            return first(*a, **k)
+        m._alpha_step = entry
+        m.mcmc_step()
+    ctx.prove(len(seen) == 1, "the step reaches its first block", key="sweep order")
+    if seen and cl:
+        got, pars = seen[0]
+        ref = _mu(pars, cl, d1, d2, D)
+        ctx.prove(len(got) == len(ref) and all_eq(ctx, got, ref),
+                  "when the first block of a step starts, the running fitted values equal those implied by the current parameters",
+                  key="stale fitted values at the start of a step")
+    return len(cl)
 
 
 def h_mvn(ctx, cfg):
